@@ -147,6 +147,48 @@ func genSpec(seed uint64, tier string, idx int) *Spec {
 		}
 	}
 	sp.ContDelayUs = [2]int{r.Range(800, 3000), r.Range(800, 3000)}
+	if fam == 7 {
+		// tolerated failures used up exactly: block b tolerates t >= 1 failed sequences and exactly t of its (>= 3)
+		// sequences fail; nothing else of the block fails, so the uninterrupted block ends Completed. A recovery that
+		// counts a durably Failed sequence twice (or forgets one) changes the outcome.
+		sp.Kind = "tol"
+		b := r.Intn(len(sp.Shape.Blocks))
+		t := r.Range(1, 2)
+		sp.Shape.Blocks[b].Tol = t
+		sp.Shape.Blocks[b].G[engine.GBypass] = nil
+		sp.Shape.G[engine.GBypass] = nil
+		for len(sp.Shape.Blocks[b].Seqs) < 3 {
+			sp.Shape.Blocks[b].Seqs = append(sp.Shape.Blocks[b].Seqs, []int{r.Intn(2)})
+		}
+		nseq := len(sp.Shape.Blocks[b].Seqs)
+		failing := map[int]bool{}
+		for len(failing) < t {
+			failing[r.Intn(nseq)] = true
+		}
+		for _, q := range sortedKeys(sp.Shape.Actions()) {
+			if _, ok := sp.Out[q]; !ok {
+				sp.Out[q] = int(engine.OOk)
+			}
+			var x, y, z int
+			if strings.HasPrefix(q, "s/") {
+				fmt.Sscanf(q, "s/%d/%d/%d", &x, &y, &z)
+				if x == b {
+					sp.Out[q] = int(engine.OOk)
+					delete(sp.OutText, engine.PathHuman(q))
+					if failing[y] && z == 0 {
+						sp.Out[q] = int([]engine.Outcome{engine.OPerm, engine.OErr, engine.OWrongType}[r.Intn(3)])
+						sp.OutText[engine.PathHuman(q)] = outcomeShort[sp.Out[q]]
+					}
+				}
+			} else {
+				fmt.Sscanf(q, "c/%d/%d/%d", &x, &y, &z)
+				if x == b || x == -1 {
+					sp.Out[q] = int(engine.OOk)
+					delete(sp.OutText, engine.PathHuman(q))
+				}
+			}
+		}
+	}
 	if fam == 2 {
 		// a block-level post or deferred check that ALWAYS fails, in a block that is followed by another block: the
 		// uninterrupted run fails the block and the plan there; a recovery must do the same wherever the crash falls
